@@ -82,6 +82,7 @@ type Case struct {
 	Wide   bool     `json:"wide"`  // a source operand of a kind that ReadOperand delivers with 64 bits
 	Kinds  []string `json:"kinds"` // operand kinds used
 	Class  string   `json:"class"` // generator class (corner / random / witness)
+	Sparse bool     `json:"sparse,omitempty"` // probe the named VGPRs only in the lanes 0,1,2,31,32,62,63 (plus every register that changed)
 	NoDec  string   `json:"nodec,omitempty"`
 	Panic  string   `json:"panic,omitempty"`
 	NotImp bool     `json:"notimpl,omitempty"`
@@ -295,6 +296,9 @@ func run(c *Case) {
 		}
 		if code >= 256 && code <= 511 {
 			for l := 0; l < 64; l++ {
+				if c.Sparse && !(l <= 2 || l == 31 || l == 32 || l >= 62) {
+					continue
+				}
 				for k := 0; k < n && code-256+k <= 255; k++ {
 					probe[key{l, code - 256 + k}] = true
 				}
@@ -1068,7 +1072,7 @@ func main() {
 			panic(err)
 		}
 		for _, c := range in {
-			cc := Case{Alu: c.Alu, Words: c.Words, Fill: c.Fill, Pre: c.Pre, Set: c.Set, Wide: c.Wide, Kinds: c.Kinds, Class: c.Class}
+			cc := Case{Alu: c.Alu, Words: c.Words, Fill: c.Fill, Pre: c.Pre, Set: c.Set, Wide: c.Wide, Kinds: c.Kinds, Class: c.Class, Sparse: c.Sparse}
 			run(&cc)
 			cc.Wide, cc.Kinds, cc.Class = c.Wide, c.Kinds, c.Class
 			res.Cases = append(res.Cases, cc)
@@ -1136,6 +1140,14 @@ func main() {
 					if mode < 2 && !*grid {
 						continue
 					}
+					c := vecCase(alu, v, rng.Fork(), mode)
+					wide, kinds, class := c.Wide, c.Kinds, c.Class
+					run(&c)
+					c.Wide, c.Kinds, c.Class = wide, kinds, class
+					res.Cases = append(res.Cases, c)
+				}
+				// EXEC corners, always run: empty, lane 0 only, lane 63 only (grid operands)
+				for mode := 3; mode <= 5 && *grid; mode++ {
 					c := vecCase(alu, v, rng.Fork(), mode)
 					wide, kinds, class := c.Wide, c.Kinds, c.Class
 					run(&c)
